@@ -306,3 +306,46 @@ Example Tie_close_nonvacuous :
         ESig SigSendFinished [PStrNum 2; PInt 0; PStr RES_TERMINATING]]
   /\ h_tx_map (gen_close_flush (habs s)) = [].
 Proof. vm_compute. repeat split; reflexivity. Qed.
+
+(** The segment-producing part of ContactHandler._process_queue (Gen/TcpclSendNext.v):
+    for every state with a transfer in progress, one pass of the model's
+    [send_next] does what the generated function says for (segment size in use,
+    offset, total length): nothing while waiting for the final acknowledgement;
+    otherwise it sends XFER_SEGMENT with the generated flags (START on the first
+    segment, END when the data is exhausted, both for a zero-length bundle), the
+    transfer-length extension item on the first segment, the next [so_dlen]
+    octets from the offset, advances the offset to [so_newlen], and at END moves
+    the item to the set awaiting the final acknowledgement, clears the transfer
+    in progress and requests a queue run. *)
+From DTN Require Import Gen.TcpclSendNext Proofs.TcpclHandlerTie5.
+Theorem Tie_send_next : forall (s : ep) (id : N) (data : bytes), tx_tmp s = Some (id, data) ->
+  send_next s =
+  match gen_send_next (seg_size s) (tx_len s) (N.of_nat (length data)) true false with
+  | None => s
+  | Some o =>
+      let seg := firstn (N.to_nat (so_dlen o)) (skipn (N.to_nat (tx_len s)) data) in
+      let ext := match so_ext_total o with Some t => total_length_ext t | None => [] end in
+      let s1 := send_msg (MXferSeg (so_flags o) id ext seg) (s <| tx_len := so_newlen o |>) in
+      if so_moved o
+      then pq_trigger (s1 <| pend_ack := pend_ack s1 ++ [id] |> <| tx_tmp := None |> <| tx_len := 0 |>)
+      else s1
+  end.
+Proof. exact tie_send_next. Qed.
+Print Assumptions Tie_send_next.
+
+Theorem Tie_send_next_switches : forall (sz off total : N) (o : seg_out),
+  gen_send_next sz off total true false = Some o -> so_priv o = false /\ so_unack o = false.
+Proof. exact tie_send_next_switches. Qed.
+Print Assumptions Tie_send_next_switches.
+
+(* Non-vacuity: 3 octets, segment size 2: START with 2 octets, then END with 1;
+   a zero-length bundle goes out as one START|END segment. *)
+Example Tie_send_next_nonvacuous :
+  option_map (fun o => (so_flags o, so_dlen o, so_newlen o, so_moved o)) (gen_send_next 2 0 3 true false)
+    = Some (2, 2, 2, false)
+  /\ option_map (fun o => (so_flags o, so_dlen o, so_newlen o, so_moved o)) (gen_send_next 2 2 3 true false)
+    = Some (1, 1, 3, true)
+  /\ option_map (fun o => (so_flags o, so_dlen o, so_newlen o, so_moved o)) (gen_send_next 2 0 0 true false)
+    = Some (3, 0, 0, true)
+  /\ gen_send_next 2 3 3 true false = None.
+Proof. vm_compute. repeat split; reflexivity. Qed.
